@@ -148,17 +148,30 @@ def gen_history(rng, n_requests, swarm):
                 "1 +", "{ let z = nosuchvar z }", "if True { 1 } else { 2 }", "",
                 "fun uploop() { while True { } }\nuploop()",
             ])
-            # offsets are byte offsets on character boundaries
-            offs = [len(src[:i].encode()) for i in range(len(src) + 1)]
-            off = r.choice(offs)
-            if "upf" in src or "upm" in src:
-                if r.chance(0.4):
-                    # the same definition and call arrive as an ordinary evaluation (saves the call's arguments)
-                    steps.append({"op": "send", "raw": run_req(src, rid)})
+            family = {"upf": ["fun upf(x) { let y = x + 1 y * 2 }\nupf(3)", "fun upf(x, z) { let y = x + z y * 2 }\nupf(3, 4)",
+                              "fun upf() { let y = 1 y * 2 }\nupf()", "fun upf(x, z, w) { let y = x + z + w y }",
+                              "fun upf(x: Int, z: String) { let y = x y }\nupf(1, \"s\")"],
+                      "upm": ["method upm(this: String, n: Int) { let y = this.len() + n y }\n\"ab\".upm(2)",
+                              "method upm(this: String) { let y = this.len() y }\n\"ab\".upm()",
+                              "method upm(this: String, n: Int, m: Int) { n + m }"]}
+            paired = None
+            for fam, members in family.items():
+                if fam in src and r.chance(0.5):
+                    # the IDE workflow: evaluate a definition and a call (which saves the call's arguments),
+                    # edit the definition, then eval-up-to inside the edited text
+                    paired = r.choice(members)
+                    steps.append({"op": "send", "raw": run_req(paired, rid)})
                     meta.append("expr")
-                    continue
+                    rid += 1
+                    src = r.choice(members)
+            # offsets are byte offsets on character boundaries, half of the time at the start of a word
+            import re as _re
+            if r.chance(0.5) and src:
+                off = len(src[:r.choice([m.start() for m in _re.finditer(r"\w+|\S", src)] or [0])].encode())
+            else:
+                off = len(src[:r.randint(0, len(src))].encode())
             req = {"method": "eval_up_to", "src": src, "offset": off, "id": rid}
-            if r.chance(0.5):
+            if r.chance(0.5) and paired is None:
                 req["path"] = r.choice(["world_ok.gdn", "up.gdn"])
             else:
                 req["path"] = None
